@@ -300,6 +300,32 @@ def vault_uses():
     return lines
 
 
+def clock_movers():
+    """Every function in programs/marginfi/src that moves a BANK's accrual clock other than by accruing: a call of
+    `update_bank_cache` (which stamps `last_update` with the current time) or a direct write to a bank's `last_update`.
+    For each such site: was `accrue_interest` called earlier in the same function body? (`accrue_interest` and
+    `update_bank_cache` themselves, in state/bank.rs, are the two definitions and are not sites.)"""
+    base = os.path.join(REPO, "programs/marginfi/src")
+    sites = []
+    for root, _, files in sorted(os.walk(base)):
+        for f in sorted(files):
+            if not f.endswith(".rs"):
+                continue
+            src = strip_comments(open(os.path.join(root, f)).read())
+            # test modules are not part of the program
+            src = re.split(r"#\[cfg\(test\)\]\s*mod\s+\w+\s*\{", src)[0]
+            for name, body in all_fns(src):
+                if name in ("accrue_interest", "update_bank_cache"):
+                    continue
+                for m in re.finditer(r"\.\s*update_bank_cache\s*\(|\b\w*bank\w*\s*\.\s*last_update\s*=[^=]", body):
+                    before = re.search(r"\.\s*accrue_interest\s*\(", body[: m.start()]) is not None
+                    sites.append((name, before))
+    lines = ["", "/-- every site outside `accrue_interest` that stamps a bank's accrual clock (`update_bank_cache(..)` or a direct write to",
+             "a bank's `last_update`), with whether `accrue_interest` was called earlier in the same function -/",
+             "def clockMovers : List (String × Bool) := [" + ", ".join('("%s", %s)' % (n, "true" if b else "false") for n, b in sites) + "]"]
+    return lines
+
+
 def main():
     os.makedirs(GEN, exist_ok=True)
     lines = [PRELUDE]
@@ -316,6 +342,7 @@ def main():
         lines.append(f"def {name}_cond : List Nat := [{', '.join(map(str, conds))}]")
         names.append(name)
     lines += vault_uses()
+    lines += clock_movers()
     lines += ["", "end Mfi.Gen.Skel", ""]
     text = "\n".join(lines)
     p = os.path.join(GEN, "Skeletons.lean")
